@@ -12,6 +12,25 @@ PANICKERS = ("Result::<T, E>::unwrap", "Result::<T, E>::expect", "Result::<T, E>
 CONVERSIONS = ("convert::Into<U>>::into", "convert::From<", "::from", "::into")
 
 
+PROG = None      # set by framework.load_all: lets the error-fate analysis look into local closures an error is handed to
+
+
+def closure_wraps(term):
+    """If `term` calls a local closure that wraps its (only) error argument with a context and returns it: True."""
+    if PROG is None:
+        return False
+    c = callee_of(term)
+    cid = c.get("self_closure")
+    if not cid or cid not in PROG.fns or not (c.get("path") or "").startswith("core::ops::function::Fn"):
+        return False
+    cl = PROG.fns[cid]
+    for p in range(2, cl.arg_count + 1):
+        f = fate_of(cl, p)
+        if f.wrapped and f.returned and not f.returned_raw:
+            return True
+    return False
+
+
 def is_wrapper(path):
     return any(path.endswith(w) or w in path for w in WRAPPERS) and ("context" in path)
 
@@ -93,10 +112,14 @@ def fate_of(fn, l, wrapped=False, seen=None, fate=None, depth=0):
             if q.endswith("Try::branch"):
                 _follow_try(fn, obj, wrapped, seen, fate, depth)
             elif q.endswith("FromResidual::from_residual") or q.endswith("from_residual"):
-                fate.returned = True
-                if not wrapped:
-                    fate.returned_raw = True
-            elif is_wrapper(p) or is_wrapper(q):
+                if dest is not None and dest != 0:
+                    # `?` inside an inlined helper: the early return became an assignment to the helper's result; keep following it
+                    fate_of(fn, dest, wrapped, seen, fate, depth + 1)
+                else:
+                    fate.returned = True
+                    if not wrapped:
+                        fate.returned_raw = True
+            elif is_wrapper(p) or is_wrapper(q) or closure_wraps(obj):
                 fate.wrapped = True
                 if dest is not None:
                     fate_of(fn, dest, True, seen, fate, depth + 1)
